@@ -3,18 +3,19 @@ import core, gen
 from core import hx, unhx
 
 LEAN_MODULE = 'QM.Props.C04'
-THEOREMS = ['P.C04_dq', 'P.C04_has_spelling', 'P.C04_simple_escapes', 'P.C04_hex_escape', 'P.C04_errors', 'P.C04_nested_quote_kept',
+THEOREMS = ['P.C04_reads_back', 'P.C04_wholly_quoted', 'P.C04_bare', 'P.C04_escape_forms', 'P.C04_dq', 'P.C04_has_spelling', 'P.C04_simple_escapes', 'P.C04_hex_escape', 'P.C04_errors', 'P.C04_nested_quote_kept',
             'P.quotedTbl_of_spec']
 ASSUMPTIONS = [
     'P.unq is a hand-written model of Quoted::parse_and_unquote over the escape table extracted from quoted.rs; tied to the code by the unquote correspondence (random raw strings, escape-heavy strings, and generated spellings)',
-    'the theorem covers the wholly double-quoted spelling produced by the repository\'s quoter and the escape forms; single-quoted, bare and mixed spellings are covered by the oracle (an independent Python spelling generator), not yet by a theorem',
+    'C04_reads_back is parametric in which escape forms denote which character (EscOK); EscOK is proved for the single-letter table and \\xHH, the \\u / \\U / octal forms are covered by the oracle (an independent Python spelling generator)',
     '"after whitespace" is decided by the code on the decoded text and for space, tab and newline only; spellings whose items are separated by other white space are not claimed',
 ]
-LEVEL_TEXT = ('Proof (partial) + oracle: Lean theorems show that every NUL-free string has a double-quoted spelling that the model of unquote_value '
-              'reads back exactly (C04_dq, induction over the string, using the escape tables extracted from the source), that each documented '
-              'single-letter and \\xHH escape denotes its character in any context, and that malformed values are errors. All other documented '
-              'spellings (single-quoted, bare with escapes, whitespace-separated mixtures, \\u/\\U/octal forms) are generated by an independent '
-              'spelling generator and checked against the real unquote_value; the model is tied to the code by correspondence.')
+LEVEL_TEXT = ('Proof: Lean theorem C04_reads_back — every documented spelling of a value (any sequence of double- or single-quoted runs that '
+              'start at the beginning or after whitespace and bare runs, with C-style escapes anywhere; inside quotes everything literal except the '
+              'closing quote and the backslash, so the other quote character is kept) is read by the model of unquote_value as exactly the string it '
+              'denotes; induction over segments and pieces in every quote state, no size bound; wholly double-quoted, wholly single-quoted, bare and '
+              'mixed spellings are instances. C04_dq / C04_has_spelling: every NUL-free string has such a spelling. Escape table extracted from the '
+              'source on every run. Model tied by correspondence; an independent spelling generator is the oracle on the real unquote_value and lookup.')
 LEVEL_NOTE = 'Trusted: Lean kernel; extractor; correspondence on generated inputs; the Python spelling generator as statement of systemd.syntax for the non-proved spellings.'
 TECHNIQUE = 'Lean 4 proof (double-quoted spelling round trip, escape denotations) + correspondence + independent spelling oracle'
 
